@@ -159,5 +159,8 @@ pub(crate) fn resolve_partial<Fd: AsFd>(
         }
     }
 
-    unreachable!("partial_ancestors should include root path which must be resolvable");
+    // partial_ancestors() ends with the root itself, which normally resolves.
+    // It can still fail (EMFILE, ENOMEM, openat2 becoming unavailable, ...),
+    // in which case the last error is all we have.
+    Err(last_error)
 }
